@@ -8,6 +8,7 @@ import OFCore.GeneratedGuards
 `OFCore.Generated.Guards` is regenerated from the source on every run (`translate.py`); these
 theorems are therefore re-checked against what the code says now.
 -/
+set_option linter.unusedSimpArgs false
 namespace OFCore.RuleSys
 open OFCore OFCore.Generated
 
@@ -18,8 +19,8 @@ theorem C01_tie_served_period (u : DUnit) (q : Period) :
         (if q.unit ≠ u then .error "unit" else .error "size") else .ok q := by
   obtain ⟨pu, st, sz⟩ := q
   by_cases h : sz = 1
-  · subst h; cases u <;> cases pu <;> simp [servedPeriod, Guards.checkPeriodConsistency_raises]
-  · cases u <;> cases pu <;> simp [servedPeriod, Guards.checkPeriodConsistency_raises, h]
+  · subst h; cases u <;> cases pu <;> simp [Tie.consistencyGuards, Tie.holderSetGuards, Tie.addGuards, Tie.divideGuards, Tie.dated, Tie.enclosingName, Tie.denominatorName, servedPeriod, Guards.checkPeriodConsistency_raises]
+  · cases u <;> cases pu <;> simp [Tie.consistencyGuards, Tie.holderSetGuards, Tie.addGuards, Tie.divideGuards, Tie.dated, Tie.enclosingName, Tie.denominatorName, servedPeriod, Guards.checkPeriodConsistency_raises, h]
 
 /-- the three guards of `calculate_add`, as the engine model tests them before it splits the period -/
 def addRefused (du pu : DUnit) : Bool :=
@@ -29,7 +30,7 @@ def addRefused (du pu : DUnit) : Bool :=
 theorem C01_tie_add_guards (du pu : DUnit) (sz : Int) :
     addRefused du pu = Guards.calculateAdd_raises du pu sz := by
   cases du <;> cases pu <;>
-    simp [addRefused, Guards.calculateAdd_raises, unitWeight, Generated.unitWeightTable,
+    simp [Tie.consistencyGuards, Tie.holderSetGuards, Tie.addGuards, Tie.divideGuards, Tie.dated, Tie.enclosingName, Tie.denominatorName, addRefused, Guards.calculateAdd_raises, unitWeight, Generated.unitWeightTable,
       Generated.isoformatUnits, Generated.isocalendarUnits, DUnit.name, List.lookup]
 
 /-- an ADD read that the code's guards refuse elaborates to the failing expression -/
@@ -41,10 +42,10 @@ theorem C01_tie_add_read_refused (d : Decl) (w : Nat) (wv : Var) (q : Period)
   rw [hw]
   simp only [addRefused, Bool.or_eq_true, decide_eq_true_eq] at h
   rcases h with (h | h) | h
-  · simp [h]
-  · by_cases h1 : unitWeight wv.unit > unitWeight q.unit <;> simp [h1, h]
+  · simp [Tie.consistencyGuards, Tie.holderSetGuards, Tie.addGuards, Tie.divideGuards, Tie.dated, Tie.enclosingName, Tie.denominatorName, h]
+  · by_cases h1 : unitWeight wv.unit > unitWeight q.unit <;> simp [Tie.consistencyGuards, Tie.holderSetGuards, Tie.addGuards, Tie.divideGuards, Tie.dated, Tie.enclosingName, Tie.denominatorName, h1, h]
   · by_cases h1 : unitWeight wv.unit > unitWeight q.unit <;>
-      by_cases h2 : wv.unit = .eternity <;> simp [h1, h2, h]
+      by_cases h2 : wv.unit = .eternity <;> simp [Tie.consistencyGuards, Tie.holderSetGuards, Tie.addGuards, Tie.divideGuards, Tie.dated, Tie.enclosingName, Tie.denominatorName, h1, h2, h]
 
 example : Guards.checkPeriodConsistency_raises .month .year 1 = true := by decide
 example : Guards.checkPeriodConsistency_raises .eternity .year 3 = false := by decide
